@@ -578,13 +578,23 @@ impl<'data, P: Platform> SymbolDb<'data, P> {
 
         let allocator = self.herd.get();
 
-        for name in wrap {
-            let name_bytes = allocator.alloc_slice_copy(name.as_bytes());
-            let orig_id = self.get_unversioned(&UnversionedSymbolName::prehashed(name_bytes));
-            let wrap_name = format!("__wrap_{name}");
-            if let Some(wrap_id) =
-                self.get_unversioned(&UnversionedSymbolName::prehashed(wrap_name.as_bytes()))
-            {
+        // Look up all the symbols before we override any names, otherwise what we find depends on
+        // what we've already overridden. In particular, if the same name is given twice, the second
+        // time we'd find the wrapper where we expect the original.
+        let lookups = wrap
+            .iter()
+            .map(|name| {
+                let name_bytes: &'data [u8] = allocator.alloc_slice_copy(name.as_bytes());
+                let orig_id = self.get_unversioned(&UnversionedSymbolName::prehashed(name_bytes));
+                let wrap_name = format!("__wrap_{name}");
+                let wrap_id =
+                    self.get_unversioned(&UnversionedSymbolName::prehashed(wrap_name.as_bytes()));
+                (name, name_bytes, orig_id, wrap_id)
+            })
+            .collect_vec();
+
+        for (name, name_bytes, orig_id, wrap_id) in lookups {
+            if let Some(wrap_id) = wrap_id {
                 self.override_name(UnversionedSymbolName::prehashed(name_bytes), wrap_id);
             }
 
